@@ -2,7 +2,7 @@
    T, O : any type with operations satisfying the ring / field laws (Leibniz equality) - instantiated with R in Proofs_Real.
    The definitions lap_*, lape_*, vl_*, tl_*, lapt_*, grad_*, adj_*, v2e_*, v2f_*, mass*_post used by the model are the
    ones the translator regenerates from mouette/operators/*.py on every run. *)
-From Coq Require Import ZArith List Bool Ring Field Reals.
+From Coq Require Import String ZArith List Bool Ring Field Reals.
 Require Import MV.C08.Ops MV.C08.Gen MV.C08.Model MV.C08.Proofs_Struct MV.C08.Proofs_Dual MV.C08.Proofs_Graph
   MV.C08.Proofs_Geom MV.C08.Proofs_Mass MV.C08.Proofs_Gram MV.C08.Proofs_Real.
 
@@ -177,6 +177,30 @@ Theorem C08_documented_weights_shapes :
     (forall n m : Z, v2f_shape n m = (m, n)).
 Proof. exact documented_weights_shapes. Qed.
 Print Assumptions C08_documented_weights_shapes.
+
+(* option defaults and positional parameter order of the operators, as documented (restatement of generated facts: the driver
+   calls every operator with options omitted / positional / by keyword and flags as bool / int / numpy.bool_) *)
+Theorem C08_documented_signatures :
+  dflt_laplacian_cotan = true /\ dflt_cotan_edge_diagonal_inverse = true /\ dflt_laplacian_triangles_cotan = true /\
+  dflt_laplacian_edges_cotan = true /\ dflt_gradient_as_complex = true /\
+  dflt_area_weight_matrix_inverse = false /\ dflt_area_weight_matrix_sqrt = false /\
+  dflt_area_weight_matrix_faces_inverse = false /\ dflt_area_weight_matrix_edges_inverse = false /\
+  dflt_volume_weight_matrix_inverse = false /\ dflt_volume_weight_matrix_sqrt = false /\
+  dflt_volume_weight_matrix_cells_inverse = false /\ dflt_volume_weight_matrix_cells_sqrt = false /\
+  dflt_adjacency_matrix_weights = "one"%string /\ dflt_vertex_to_edge_operator_oriented = false /\
+  params_laplacian = ("mesh" :: "cotan" :: "connection" :: "order" :: nil)%string /\
+  params_cotan_edge_diagonal = ("mesh" :: "inverse" :: nil)%string /\
+  params_laplacian_triangles = ("mesh" :: "cotan" :: "connection" :: "order" :: nil)%string /\
+  params_laplacian_edges = ("mesh" :: "cotan" :: "connection" :: "order" :: nil)%string /\
+  params_gradient = ("mesh" :: "conn" :: "as_complex" :: nil)%string /\
+  params_area_weight_matrix = ("mesh" :: "inverse" :: "sqrt" :: "format" :: nil)%string /\
+  params_area_weight_matrix_faces = ("mesh" :: "inverse" :: "format" :: nil)%string /\
+  params_area_weight_matrix_edges = ("mesh" :: "inverse" :: nil)%string /\
+  params_volume_weight_matrix = ("mesh" :: "inverse" :: "sqrt" :: "format" :: nil)%string /\
+  params_volume_weight_matrix_cells = ("mesh" :: "inverse" :: "sqrt" :: "format" :: nil)%string /\
+  params_adjacency_matrix = ("mesh" :: "weights" :: nil)%string /\ params_vertex_to_edge_operator = ("mesh" :: "oriented" :: nil)%string.
+Proof. exact documented_signatures. Qed.
+Print Assumptions C08_documented_signatures.
 
 (* ---- C08_graph --------------------------------------------------------------------------------------------------- *)
 Theorem C08_graph_laplacian :
